@@ -8,15 +8,9 @@
    right-hand side (constants are constant functions);  S_i are the components of the solver's dense output `res.sol`. *)
 From Coq Require Import Reals List.
 From Coquelicot Require Import Coquelicot.
-From P Require Import C15_bell C15_gen.
+From P Require Import C15_bell C15_gen C15_ref.
 Import ListNotations.
 Open Scope R_scope.
-
-(* reference (hand-written, independent of the code): derivatives of y = u o g by the chain rule (Faa di Bruno, orders 1..3) *)
-Definition Y1 (u1 g g1 : R -> R) (t : R) : R := u1 (g t) * g1 t.
-Definition Y2 (u1 u2 g g1 g2 : R -> R) (t : R) : R := u2 (g t) * g1 t ^ 2 + u1 (g t) * g2 t.
-Definition Y3 (u1 u2 u3 g g1 g2 g3 : R -> R) (t : R) : R :=
-  u3 (g t) * g1 t ^ 3 + 3 * u2 (g t) * g1 t * g2 t + u1 (g t) * g3 t.
 
 (* numpy `deriv.dot(v)` with the matrix returned by _derivative_transformation_matrix(deriv_funcs, point, N) *)
 Definition mv1 (d1 d2 d3 v1 : R) : R := dtm_1_0_0 d1 d2 d3 * v1.
@@ -27,6 +21,11 @@ Definition mv3 (d1 d2 d3 v1 v2 v3 : R) : R * R * R :=
   (dtm_3_0_0 d1 d2 d3 * v1 + dtm_3_0_1 d1 d2 d3 * v2 + dtm_3_0_2 d1 d2 d3 * v3,
    dtm_3_1_0 d1 d2 d3 * v1 + dtm_3_1_1 d1 d2 d3 * v2 + dtm_3_1_2 d1 d2 d3 * v3,
    dtm_3_2_0 d1 d2 d3 * v1 + dtm_3_2_1 d1 d2 d3 * v2 + dtm_3_2_2 d1 d2 d3 * v3).
+
+(* admissible transform on the set D of x values: thrice differentiable with the code's deriv/deriv2/deriv3 as derivatives,
+   g' <> 0, and transform.inverse inverts transform *)
+Definition tf_ok (D : R -> Prop) (g ginv g1 g2 g3 : R -> R) : Prop :=
+  forall x, D x -> is_derive g x (g1 x) /\ is_derive g1 x (g2 x) /\ is_derive g2 x (g3 x) /\ g1 x <> 0 /\ ginv (g x) = x.
 
 (* ------------------------------------------------------------------ solve_ode_ivp with a transform
    x_span  ->  transform.transform(x_span);
